@@ -496,10 +496,13 @@ impl Property for C20 {
     fn runs(&self, tier: Tier) -> u64 { match tier { Tier::Quick => 20_000, Tier::Thorough => 1_000_000 } }
     fn gen_plan(&self, seed: u64, tier: Tier) -> Value {
         if let Some(p) = super::hubcfg::dispatch_gen("C20", seed, tier) { return p; } // hubcfg: main-process tier
+        // cluster tier: one seed in fifty loads a plain file through the real main process into a real, fresh worker
+        if crate::prng::Prng::derive(seed, "c20/cluster-tier").below(50) == 0 { return serde_json::json!({"cluster_reload": super::c20_cluster::generate(seed, tier)}); }
         serde_json::to_value(gen_::generate(seed, tier)).unwrap()
     }
     fn run_plan(&self, plan: &Value) -> RunReport {
         if let Some(r) = super::hubcfg::dispatch_run(plan) { return r; } // hubcfg
+        if let Some(c) = plan.get("cluster_reload") { return super::c20_cluster::Standalone.run_plan(c); }
         let p: Plan = match serde_json::from_value(plan.clone()) { Ok(p) => p, Err(e) => return RunReport { harness_error: Some(format!("bad plan: {e}")), ..Default::default() } };
         if std::env::var("SIMK_C20_DEBUG").is_ok() { eprintln!("{}", self.debug_plan(plan)); }
         let o = run(&p, false);
@@ -514,6 +517,7 @@ impl Property for C20 {
     }
     fn shrink(&self, plan: &Value) -> Vec<Value> {
         if let Some(c) = super::hubcfg::dispatch_shrink(plan) { return c; } // hubcfg
+        if let Some(c) = plan.get("cluster_reload") { return super::c20_cluster::Standalone.shrink(c).into_iter().map(|q| serde_json::json!({"cluster_reload": q})).collect(); }
         let Ok(p) = serde_json::from_value::<Plan>(plan.clone()) else { return vec![] };
         let mut out = Vec::new();
         // a violation of a neighbour only needs that neighbour; a violation of the base needs none
@@ -530,6 +534,7 @@ impl Property for C20 {
     }
     fn debug_plan(&self, plan: &Value) -> String {
         if let Some(d) = super::hubcfg::dispatch_debug(plan) { return d; } // hubcfg
+        if let Some(c) = plan.get("cluster_reload") { return super::c20_cluster::Standalone.debug_plan(c); }
         let Ok(p) = serde_json::from_value::<Plan>(plan.clone()) else { return "bad plan".into() };
         let o = run(&p, true);
         let mut s = o.log.join("\n");
